@@ -1955,8 +1955,9 @@ def _clean_part(data, name="<unknown>"):
 
     if isinstance(data, np.ndarray) and data.ndim == 2 and \
        data.dtype == object and isinstance(data[0, 0], np.ndarray):
-        # Data is already in the right format
-        return data
+        # Data is already in the right format (copy the array of
+        # references so that the caller's array is never modified)
+        return data.copy()
     elif isinstance(data, ndarray) and data.ndim == 3 and \
           isinstance(data[0, 0, 0], valid_types):
         out = np.empty(data.shape[0:2], dtype=np.ndarray)
